@@ -132,6 +132,20 @@ Definition absent_ok (envs : bool) (oc : N) (fol : str) : bool :=
   | c0 :: r => negb (N.eqb c0 oc) && (negb (N.eqb c0 92) || esc_ok envs r)
   end.
 
+(** what follows is a paragraph break: a whitespace run that starts with a
+    newline and contains a second one *)
+Definition par_follows (F : str) : bool :=
+  match F with
+  | 10%N :: _ => Nat.leb 2 (count_c 10 (fst (span is_space F)))
+  | _ => false
+  end.
+
+(** what may follow a control sequence (name + post-space) and what follows it:
+    as [mac_follow_ok], or — a control word whose post-space has no newline — a
+    paragraph break (the tokenizer then cuts the post-space at the first newline) *)
+Definition mac_follow_ok2 (name post F : str) : bool :=
+  mac_follow_ok name post (hd_error F) || (negb (mem_c 10 post) && par_follows F).
+
 (** the delimiters of a verbatim argument that starts with [c0]: those of the
     signature, or — when it declares none — [c0] and its mirror image *)
 Definition vdelims (d : option (str * str)) (c0 : N) : option (N * N) :=
@@ -194,7 +208,7 @@ Fixpoint ok_item2 (cx : context) (ps : pstate) (ex : str) (i : item2) (fol : str
               (* a control sequence (its own arguments are not parsed) *)
               ws_ok ws && ws_ok post && name_ok name post
               && match get_macro_spec cx name with Some _ => true | None => false end
-              && mac_follow_ok name post (hd_error fa)
+              && mac_follow_ok2 name post fa
           | AKExpr _, Spc2 ws (c :: cr) [] =>
               (* a specials sequence *)
               ws_ok ws && plain_start c
@@ -249,10 +263,11 @@ Fixpoint ok_item2 (cx : context) (ps : pstate) (ex : str) (i : item2) (fol : str
   | Cmt2 ws text post =>
       (* the comment text has no newline; the post-space is the newline and the whitespace
          after it (not followed by more whitespace), or — stage (e6) — the comment ends
-         with the input *)
+         with the input, or it is followed by a paragraph break (whose first newline is
+         then not part of the comment) *)
       ws_ok ws && negb (mem_c 10 text)
       && match post with
-         | [] => is_nil fol
+         | [] => is_nil fol || par_follows fol
          | 10%N :: _ => ws_ok post && negb (otest is_space (hd_error fol))
          | _ => false
          end
@@ -269,7 +284,7 @@ Fixpoint ok_item2 (cx : context) (ps : pstate) (ex : str) (i : item2) (fol : str
              match sp_args sp with
              | APStd l =>
                  oka args l fol && slots_ok (nabs args) (1 + length name)
-                 && mac_follow_ok name post (hd_error (flat_map unparse_item2 args ++ fol))
+                 && mac_follow_ok2 name post (flat_map unparse_item2 args ++ fol)
              | APLegacy _ => false
              end
          | None => false
@@ -369,7 +384,7 @@ Definition ok_arg2 (cx : context) (ps : pstate) (spc : argspec) (a : item2) (fa 
   | AKExpr _, Mac2 ws name post [] =>
       ws_ok ws && ws_ok post && name_ok name post
       && match get_macro_spec cx name with Some _ => true | None => false end
-      && mac_follow_ok name post (hd_error fa)
+      && mac_follow_ok2 name post fa
   | AKExpr _, Spc2 ws (c :: cr) [] =>
       ws_ok ws && plain_start c
       && match test_specials (map fst (cx_specials cx)) ((c :: cr) ++ fa) None with
